@@ -60,6 +60,12 @@ Theorem C10_source_constants :
   (forall c, is_final c = (fst src_ansi_final <=? c) && (c <=? snd src_ansi_final)) /\
   (forall c, cw_simple c = if c <? src_double_width_cutoff then 1 else 2).
 Proof. exact (conj src_csi_ok (conj src_ansi_final_ok src_cutoff_ok)). Qed.
+(* the recogniser the L2 layer runs on every text (extracted): what it accepts is
+   well-formed in the sense of C10_wellformed, with the stripped text it returns *)
+From TW Require Import ParseWF.
+Theorem C10_checker_sound : forall t v : Chars.str, wf_strip t = Some v -> EscFacts.Parse t v.
+Proof. exact wf_strip_sound. Qed.
+Print Assumptions C10_checker_sound.
 Print Assumptions C10_source_constants.
 
 Print Assumptions C10_wellformed.
